@@ -90,6 +90,16 @@ def observe(g, plan, sc, ref):
             if len(out) != full_before and not omn:
                 vio.append({"sig": "C12:not-at-boundary", "what": "stopped inside a non-Markov pre-terminal under %r" % plan, "plan": replay_plan})
     om = omn[-1] if omn else None
+    if any(e in ("status", "help", "q") for v_ in plan.values() for e in v_) and min(plan) % 3 == 0:
+        # the same schedule on a session that has been guessing for more than two days / exactly one day already: the
+        # status texts differ (day counts), the guess stream and stdout must not
+        for pt_ in (200000, 86400 + 7):
+            r3 = sched.run_session(g, plan, sc, past_time=pt_)
+            if r3["out"] != out or r3["stray_stdout"]:
+                vio.append({"sig": "C12:stdout-noise" if r3["stray_stdout"] else "C12:altered",
+                            "what": "schedule %r on a session with %d s of earlier guessing time: %d guesses (expected %d), stdout noise %r"
+                                    % (plan, pt_, len(r3["out"]), len(out), r3["stray_stdout"][:60]), "plan": dict(replay_plan, past_time=pt_)})
+                break
     if 0 in plan and has_q:
         # the same events typed before anything else happened (delivered the moment the keyboard thread is started,
         # wherever the session starts it): a quit requested then is honoured like one requested before the first pop
@@ -99,6 +109,43 @@ def observe(g, plan, sc, ref):
                         "but %d guesses and %d saves when delivered before the first pop (a quit typed during start-up is dropped or handled "
                         "differently)" % (plan, len(r2["out"]), len(r2["saves"]), len(out), len(r["saves"])), "plan": dict(replay_plan, early=True)})
     return (plan, len(out), saved, om, finished), vio
+
+
+def big_preterminal(ctx, sc, dist):
+    vio = []
+    n1, n2 = ctx.scale(300, 520), 300
+    rs = {"name": "BIG", "encoding": "utf-8", "uuid": "00000000-0000-0000-0000-000000000012", "files": {
+        "A4": [("w%03d" % i, 1.0 / n1) for i in range(n1)], "C4": [("LLLL", 1.0)],
+        "D3": [("%03d" % i, 1.0 / n2) for i in range(n2)], "D1": [("7", 0.6), ("8", 0.4)]},
+        "grammar": [("A4D3", 0.7), ("D1", 0.3)], "prince": [("D1", 1.0)], "omen": None, "omen_prob": [("1", 0.1)]}
+    try:
+        g = impl_next.load_grammar(rs, sc)
+    except Exception as e:
+        return [{"sig": "C12:raised", "what": "cannot load the big-pre-terminal ruleset: %r" % (e,), "replay": {"ruleset": rs}}]
+    ref = sched.run_session(g, {}, sc)
+    total = len(ref["out"])
+    big = n1 * n2
+    dist["big_preterminal_guesses"] = big
+    for qstep in (1000, big * 3 // 4, big - 10):
+        plan = {qstep: ["q", "die"]}
+        r = sched.run_session(g, plan, sc)
+        dist["big_preterminal_runs"] = dist.get("big_preterminal_runs", 0) + 1
+        # steps: 1 per pop + 1 per guess; the big pre-terminal is popped first (probability 0.7/(n1*n2) vs 0.18: D1 first) - use the
+        # reference boundaries instead of assuming the order
+        bounds, c = [], 0
+        from props.C04 import collect
+        for it in ref["pops"]:
+            res = collect(g, it["pt"], None)
+            c += res[1] if res else 0
+            bounds.append(c)
+        n = len(r["out"])
+        if r["out"] != ref["out"][:n] or (n not in bounds and n != total) or len(r["saves"]) < 2 and n < total:
+            vio.append({"sig": "C12:not-at-boundary" if n not in bounds else "C12:altered",
+                        "what": "quit requested at step %d inside a pre-terminal of %d guesses: the stream stopped after %d guesses "
+                                "(pre-terminal boundaries %r, %d saves)" % (qstep, big, n, bounds, len(r["saves"])),
+                        "replay": {"ruleset": rs, "plan": {str(qstep): ["q", "die"]}, "big": True}})
+            break
+    return vio
 
 
 def reference(g, sc):
@@ -240,6 +287,9 @@ def run(ctx):
                 vio.append({"sig": "C12:status-storm", "what": "status requests from the keyboard thread running concurrently with guess generation "
                             "changed stdout: %d lines instead of %d" % (len(got), len(ref)), "replay": {"ruleset": rs, "storm": True}})
                 break
+    # (a'') one enormous non-Markov pre-terminal (300 x 300 equally probable values): a quit requested deep inside it stops at
+    # its end, not inside, and the session is saved
+    vio += big_preterminal(ctx, sc, dist)
     # (b) stdin conditions through the real CLI
     code = common.copy_code_tree(common.scratch())
     for i in range(ctx.scale(2, 6)):
@@ -277,7 +327,7 @@ def replay(ctx, data):
     sc = common.scratch()
     g = impl_next.load_grammar(rs, sc)
     ref = reference(g, sc)
-    plan = {int(k): v for k, v in inp["plan"].items() if k != "early"}
+    plan = {int(k): v for k, v in inp["plan"].items() if k not in ("early", "past_time")}
     obs, v = observe(g, plan, sc, ref)
     for x in v:
         x["replay"] = {"ruleset": rs, "plan": x.pop("plan")}
